@@ -2,6 +2,7 @@ package main
 
 import (
 	"fmt"
+	"regexp"
 	"strings"
 	"sync/atomic"
 
@@ -179,6 +180,12 @@ func checkC06(r *Run) {
 			r.Violation("js-ts:ts-rejects-valid-js:"+normErr(errT[0]), fmt.Sprintf("a JavaScript program accepted under the js loader is rejected under the ts loader (%s): %s", opt.name, errT[0]), map[string]interface{}{"input": src, "options": opt.name, "errors": errT})
 			return
 		}
+		if outJ != outT && c06AngleCallRe.MatchString(src) {
+			// `a < b > (c)` is two comparisons in JavaScript and a call with type arguments in TypeScript: a difference between
+			// the languages that the property excludes
+			r.Count("js_vs_ts_pairs_with_a<b>(c)_ambiguity(skipped)", 1)
+			return
+		}
 		if outJ != outT {
 			a, b := firstLineDiff(outJ, outT)
 			r.Violation("js-ts:output-differs:"+normErr(trunc(a, 60)), fmt.Sprintf("the same JavaScript program compiles differently under the js and ts loaders (%s): js: %s | ts: %s", opt.name, trunc(a, 200), trunc(b, 200)), map[string]interface{}{"input": src, "options": opt.name, "out_js": outJ, "out_ts": outT})
@@ -244,6 +251,8 @@ func c06AlphaEqual(r *Run, a, b string, f api.Format) bool {
 	}
 	return res.Equal
 }
+
+var c06AngleCallRe = regexp.MustCompile(`<[^<>;{}()]*>\s*\(`)
 
 func firstLineDiff(a, b string) (string, string) {
 	la, lb := strings.Split(a, "\n"), strings.Split(b, "\n")
